@@ -558,6 +558,18 @@ impl<'a> Context<'a> {
             return ClosestEncloserProofInfo::default();
         };
 
+        // RFC 5155 8.3: the NSEC3 record matching the closest encloser must be from the proper
+        // zone: the DNAME bit must not be set and the NS bit may only be set together with the SOA
+        // bit.  Otherwise the record speaks for the parent side of a zone cut and cannot deny
+        // names below it.
+        let closest_encloser_types = closest_encloser_matching_record.nsec3_data.type_set();
+        if closest_encloser_types.contains(RecordType::Unknown(39))
+            || (closest_encloser_types.contains(RecordType::NS)
+                && !closest_encloser_types.contains(RecordType::SOA))
+        {
+            return ClosestEncloserProofInfo::default();
+        }
+
         // Find the index in the candidate list associated with the closest encloser name.
         let Some(closest_encloser_index) = closest_encloser_candidates
             .iter()
